@@ -216,6 +216,43 @@ def check_c03(rec, nodes, spec, wall: bool = False, strict_buffer_skip: bool = T
     return V
 
 
+def model_phases(spec, nodes) -> dict:
+    """Phases from the *configuration* (spec), by an independent longest-path DP over non-skipped connections. Expected delays that the spec
+    leaves to rex's default (99th percentile of a continuous distribution) are taken from the node objects; everything else from the spec."""
+    names = [nd["name"] for nd in spec["nodes"]]
+
+    def ndelay(i):
+        nd = spec["nodes"][i]
+        if nd.get("delay") is not None:
+            return float(nd["delay"])
+        if nd["dist"][0] == "det":
+            return float(onp.float32(nd["dist"][1]))
+        return float(nodes[names[i]].delay)
+
+    def cdelay(c):
+        if c.get("delay") is not None:
+            return float(c["delay"])
+        if c["dist"][0] == "det":
+            return float(onp.float32(c["dist"][1]))
+        return float(nodes[names[c["dst"]]].inputs[names[c["src"]]].delay)
+
+    memo = {}
+
+    def ph(i, depth=0):
+        if i in memo:
+            return memo[i]
+        if depth > len(names) + 2:
+            raise RecursionError
+        best = 0.0
+        for c in spec["conns"]:
+            if c["dst"] == i and not c["skip"]:
+                best = max(best, (ph(c["src"], depth + 1) + ndelay(c["src"])) + cdelay(c))
+        memo[i] = best
+        return best
+
+    return {names[i]: ph(i) for i in range(len(names))}
+
+
 def check_c04(rec, nodes, spec) -> Verdict:
     """4.5 start-time law, re-evaluated independently from the record (SIMULATED clock)."""
     import rex.constants as const
@@ -223,13 +260,20 @@ def check_c04(rec, nodes, spec) -> Verdict:
     V = Verdict()
     B, E, D, SEQ, cons = record_arrays(rec, nodes)
     byname = {nd["name"]: nd for nd in spec["nodes"]}
+    try:
+        mph = model_phases(spec, nodes)
+    except RecursionError:
+        mph = {}
+    for v, p in mph.items():
+        if abs(float(nodes[v].phase) - p) > 1e-9:
+            V.v("4.5-phase-differs-from-configured-longest-delay-path", node=v, phase=float(nodes[v].phase), expected=p)
     for v in B:
         node = nodes[v]
         bv, ev = B[v], E[v]
         K_ = len(bv)
         only_blocking = bool(node.advance) and all(c.blocking for c in node.inputs.values())
         P = 0.0
-        phase = float(node.phase)
+        phase = float(mph.get(v, node.phase))
         prev_unbound = False
         blocking_in = [cons[(c.output_node.name, v)] for c in node.inputs.values() if c.blocking]
         for k in range(K_):
